@@ -57,6 +57,21 @@ def rand_leaf(rs, v, kinds):
     raise ValueError(kind)
 
 
+def skew_params(root, rs, p_zero_w=0.3, p_extreme=0.3, hard=True):
+    """post-process a generated circuit: some sum weights become exactly 0 (their mass moves to
+    another child) and some Bernoulli parameters become extreme (2^-10 / 1-2^-10 / 0 / 1) — the
+    situations in which 'log(w + eps)'-style edits and floor constants matter."""
+    for o in post_order(root):
+        if isinstance(o, Sum) and len(o.children) >= 2 and rs.rand() < p_zero_w:
+            w = np.array(o.weights, dtype=np.float64)
+            i = int(rs.randint(len(w))); j = int((i + 1 + rs.randint(len(w) - 1)) % len(w))
+            w[j] += w[i]; w[i] = 0.0
+            o.weights = w.astype(np.float32)
+        elif isinstance(o, Bernoulli) and rs.rand() < p_extreme:
+            o.p = float([2.0 ** -10, 1.0 - 2.0 ** -10, 0.0, 1.0, 2.0 ** -10, 1.0 - 2.0 ** -10][rs.randint(6 if hard else 2)])
+    return root
+
+
 def rand_circuit(rs, scope, kinds=("bern",), clt=0.0, share=0.3, depth=0, pool=None, maxdepth=4,
                  kind_of=None):
     """Random valid DAG over `scope`.  kind_of: dict var -> leaf kind (keeps a variable's domain
